@@ -1438,14 +1438,25 @@ var uboundMemo = map[int]int64{}
 
 // ubound returns an upper bound of a length term (unsigned), if one is syntactically evident.
 // Subtractions are assumed not to wrap: the engine only builds length terms after checking bounds.
-func ubound(t *Term) (uint64, bool) {
+func ubound(t *Term) (uint64, bool) { return uboundX(t, false) }
+
+// uboundSound never assumes anything about wrap-around (used for branch decisions).
+func uboundSound(t *Term) (uint64, bool) { return uboundX(t, true) }
+
+var uboundMemoS = map[int]int64{}
+
+func uboundX(t *Term, sound bool) (uint64, bool) {
+	uboundMemo := uboundMemo
+	if sound {
+		uboundMemo = uboundMemoS
+	}
 	if v, ok := uboundMemo[t.ID]; ok {
 		if v < 0 {
 			return 0, false
 		}
 		return uint64(v), true
 	}
-	r, ok := ubound1(t)
+	r, ok := ubound1(t, sound)
 	if ok && r < 1<<40 {
 		uboundMemo[t.ID] = int64(r)
 	} else {
@@ -1455,7 +1466,8 @@ func ubound(t *Term) (uint64, bool) {
 	return r, ok
 }
 
-func ubound1(t *Term) (uint64, bool) {
+func ubound1(t *Term, sound bool) (uint64, bool) {
+	ubound := func(x *Term) (uint64, bool) { return uboundX(x, sound) }
 	switch t.Op {
 	case "const":
 		if t.Big != nil {
@@ -1463,17 +1475,29 @@ func ubound1(t *Term) (uint64, bool) {
 		}
 		return t.C, true
 	case "var":
+		if sound {
+			return 0, false // the declared range lives in the path condition, not in the term
+		}
 		v, ok := varBounds[t.Name]
 		return v, ok
 	case "bvadd":
 		a, ok1 := ubound(t.Args[0])
 		if t.Args[1].IsConst() && t.Args[1].S.W == 64 && t.Args[1].SVal() < 0 {
 			// x + (-k)
+			if sound {
+				return 0, false
+			}
 			return a, ok1
 		}
 		b, ok2 := ubound(t.Args[1])
+		if ok1 && ok2 && t.S.W < 64 && a+b > mask(t.S.W) {
+			return mask(t.S.W), true
+		}
 		return a + b, ok1 && ok2
 	case "bvsub":
+		if sound {
+			return 0, false
+		}
 		return ubound(t.Args[0])
 	case "ite":
 		a, ok1 := ubound(t.Args[1])
@@ -1495,6 +1519,29 @@ func ubound1(t *Term) (uint64, bool) {
 		}
 	case "select":
 		return 255, true
+	case "bvlshr":
+		if t.Args[1].IsConst() && t.Args[1].Big == nil && t.S.W <= 64 {
+			k := t.Args[1].C
+			if k >= uint64(t.S.W) {
+				return 0, true
+			}
+			if a, ok := ubound(t.Args[0]); ok {
+				return a >> k, true
+			}
+			return mask(t.S.W) >> k, true
+		}
+	case "extract":
+		w := t.P1 - t.P2 + 1
+		if w <= 16 {
+			return mask(w), true
+		}
+	case "bvurem":
+		if t.Args[1].IsConst() && t.Args[1].Big == nil && t.Args[1].C > 0 {
+			return t.Args[1].C - 1, true
+		}
+	}
+	if t.S.K == KBV && t.S.W <= 8 {
+		return mask(t.S.W), true
 	}
 	return 0, false
 }
